@@ -53,6 +53,27 @@ FIRST = {  # why the first run of the property's quick check missed the change (
     "C09-r4-2": "caught at first run",
     "C10-r4-1": "write paths had one postfix level; parenthesised multi-level paths `(a[0])[1] op= v` were absent",
     "C10-r4-2": "`import <path>` was not among the write forms (now: const / class / module name protected against every spelling of the path)",
+    "C01-r4-1": "caught at first run",
+    "C01-r4-2": "the check's programs avoid literal-only sub-expressions (the code-generator model does not fold), so the compile-time evaluator was out of sight; it is the same change as C05-r2-2, which C06 catches (now: constant_programs with a Python statement of the arithmetic)",
+    "C08-r4-1": "histories were straight-line: no expression in which an object-valued field is read as receiver / argument and re-pointed by a later argument",
+    "C08-r4-2": "caught at first run",
+    "C11-r4-1": "exported scalars never changed after their export statement",
+    "C11-r4-2": "the hidden names importers tried to reach were untyped; a typed declaration without `export` was not tried",
+    "C12-r4-1": "`get` never stood in statement position",
+    "C12-r4-2": "the literal `nil` was always the right operand of == / !=",
+    "C13-r4-1": "caught at first run", "C13-r4-2": "caught at first run",
+    "C14-r4-1": "caught at first run", "C14-r4-2": "caught at first run",
+    "C15-r4-1": "comparison shapes used only `<` and `==`, arithmetic only + - * (now: every operator of the language with two logging operands)",
+    "C15-r4-2": "no call through a function-typed FIELD whose argument re-assigns that field",
+    "C16-r4-1": "caught at first run", "C16-r4-2": "caught at first run",
+    "C17-r4-1": "every generated source file started with code on line 1 (now: blank, whitespace-only and comment lines first in some files)",
+    "C17-r4-2": "failing programs were only run with `mscript run`; the compile + execute route was C04's business (now: a third of them through both)",
+    "C18-r4-1": "caught at first run (duplicate labels were added for C04-r4-1 just before)",
+    "C18-r4-2": "the entry path was always spelled without a leading `./` (now: plain, `./`, absolute, the same spelling in every step) and no method constructed its own class through `Self(..)`",
+    "C19-r4-1": "caught at first run",
+    "C19-r4-2": "the failing foreign call never ran during a module import",
+    "C20-r4-1": "caught at first run",
+    "C20-r4-2": "the directory handed to `clean` was never named like a source file",
     "C20-r3-2": "caught at first run, but only as a model/implementation difference on `..mmm` (a name the property's list leaves open); hidden names with a real extension (`.cache.mmm`) now give the concrete failing tree",
 }
 
